@@ -43,6 +43,12 @@ Qed.
 Lemma shape_eqb_neq a b : a <> b -> shape_eqb a b = false.
 Proof. intros H. destruct (shape_eqb a b) eqn:E; [|reflexivity]. apply shape_eqb_eq in E. contradiction. Qed.
 
+(* C01 lemmas, instantiated (their statements carry the C01 section parameters) *)
+Lemma idx_lt' (r : ring) k : wf r -> idx r k < N r.
+Proof. exact (idx_lt (castU NM) (zero NM) r k). Qed.
+Lemma nth_map_seq' {X} (d : X) (f : nat -> X) n i : i < n -> nth i (map f (seq 0 n)) d = f i.
+Proof. exact (nth_map_seq (castU NM) (zero NM) d f n i). Qed.
+
 (* ------------------------------------------------------------------ one record *)
 (* well formed, initialised with observation shape sh, every stored observation has nel sh elements *)
 Definition wfr (sh : list nat) (r : ring) : Prop :=
@@ -64,7 +70,7 @@ Proof. intros (_ & H & _). unfold rshape_of. rewrite H. reflexivity. Qed.
 
 Lemma at_length sh r k : wfr sh r -> length (at_ r k) = nel sh.
 Proof.
-  intros (Hwf & Hst & Hall). unfold RingProofs.at_. pose proof (idx_lt r k Hwf) as Hi.
+  intros (Hwf & Hst & Hall). unfold RingProofs.at_. pose proof (idx_lt' r k Hwf) as Hi.
   destruct Hwf as (Hn & Hp & Hl). rewrite Hst in Hl.
   rewrite Forall_forall in Hall. apply Hall. apply nth_In. fold (rows r) in *. lia.
 Qed.
@@ -75,7 +81,7 @@ Lemma push_unfold sh (r : ring) (el : list A) ip : wfr sh r ->
   push (castU NM) (zero NM) r (mkObs tt sh el) ip =
   Ok (set_ptr (set_st r (SFull tt sh (upd (rows r) (idx r 0) el))) (unwind (ptr r) (- 1) (N r))) OUnit.
 Proof.
-  intros (Hwf & Hst & _). pose proof (idx_lt r 0 Hwf) as Hi. destruct Hwf as (Hn & Hp & Hl).
+  intros (Hwf & Hst & _). pose proof (idx_lt' r 0 Hwf) as Hi. destruct Hwf as (Hn & Hp & Hl).
   unfold push. rewrite Hst. unfold write. rewrite Hst. cbn [oshape oel]. rewrite shape_eqb_refl. cbn [negb].
   rewrite map_castU. rewrite Hst in Hl.
   rewrite (splice_eq_upd (castU NM) (zero NM) (rows r) (idx r 0) el) by lia.
@@ -86,7 +92,7 @@ Lemma rpush_ok c sh (r : ring) (el : list A) h : wfr sh r -> hist_is r h -> leng
   exists r', rpush NM c r sh el = SOk r' /\ wfr sh r' /\ N r' = N r /\ hist_is r' (shift_h el h).
 Proof.
   intros Hw Hh Hlen. pose proof Hw as (Hwf & Hst & Hall).
-  destruct (hist_push (castU NM) (promU NM) (eqbU NM) (zero NM) r (mkObs tt sh el) (cinplace NM c) Hwf (wfr_full _ _ Hw))
+  destruct (hist_push (castU NM) promU eqbU (zero NM) r (mkObs tt sh el) (cinplace NM c) Hwf (wfr_full _ _ Hw))
     as (d & sh' & Hst' & Hp).
   rewrite Hst in Hst'. injection Hst' as <- <-. cbn [oshape] in Hp.
   destruct (Hp (shape_eqb_refl sh)) as (r' & Hpush & Hwf' & HN' & Hst'' & Hhist). clear Hp.
@@ -97,10 +103,10 @@ Proof.
   - split; [exact Hwf'|]. split; [exact Hst''|]. rewrite Hrows. apply Forall_upd; assumption.
   - intros k Hk. rewrite HN' in Hk. cbn [oel] in Hhist. rewrite map_castU in Hhist.
     assert (E : at_ r' (Z.of_nat k + 1) = nth k (hist r') []).
-    { unfold hist. rewrite nth_map_seq by lia. reflexivity. }
+    { unfold hist. rewrite nth_map_seq' by lia. reflexivity. }
     rewrite E, Hhist. destruct k as [|k]; cbn [nth shift_h]; [reflexivity|].
     unfold hist. destruct (N r) as [|n] eqn:EN; [lia|]. rewrite removelast_map_seq.
-    rewrite nth_map_seq by lia. apply Hh. lia.
+    rewrite nth_map_seq' by lia. apply Hh. lia.
 Qed.
 
 Lemma rpush_bad_shape c sh sh' (r : ring) (el : list A) : wfr sh r -> sh' <> sh ->
@@ -115,7 +121,7 @@ Lemma rreset_ok sh (r : ring) : wfr sh r ->
   wfr sh (rreset NM r) /\ N (rreset NM r) = N r /\ hist_is (rreset NM r) (fun _ => repeat (zero NM) (nel sh)).
 Proof.
   intros Hw. pose proof Hw as (Hwf & Hst & Hall).
-  destruct (reset_fill_spec (castU NM) (promU NM) (eqbU NM) r (zero NM) Hwf (wfr_full _ _ Hw))
+  destruct (reset_fill_spec (castU NM) promU eqbU r (zero NM) Hwf (wfr_full _ _ Hw))
     as (r' & d & sh' & Hr & Hwf' & HN' & Hp' & Hst1 & Hst' & Hat).
   rewrite Hst in Hst1. injection Hst1 as <- <-.
   unfold rreset. rewrite Hr.
@@ -240,7 +246,7 @@ Proof.
   { unfold wfr, fresh, RingProofs.wf, RingProofs.rows; cbn [N ptr st]. rewrite repeat_length.
     repeat split; auto. apply Forall_forall. intros x Hx. apply repeat_spec in Hx. subst. apply repeat_length. }
   split; [exact Hw|]. intros k Hk. unfold RingProofs.at_, RingProofs.rows, fresh; cbn [st].
-  pose proof (idx_lt (fresh NM n sh) (Z.of_nat k + 1) (proj1 Hw)) as Hi. cbn [fresh N] in Hi.
+  pose proof (idx_lt' (fresh NM n sh) (Z.of_nat k + 1) (proj1 Hw)) as Hi. cbn [fresh N] in Hi.
   unfold fresh in Hi |- *.
   rewrite (nth_indep _ [] (repeat (zero NM) (nel sh))) by (rewrite repeat_length; exact Hi).
   apply nth_repeat.
@@ -276,6 +282,27 @@ Proof.
   destruct (ckind NM c); congruence.
 Qed.
 
+(* records a class does not have are never written: they keep the resting value *)
+Lemma cur_val_delta c p : ckind NM c = KDelta -> cur_val c p = zrow c.
+Proof. intros E. destruct p as [|(a, b) l]; cbn [cur_val]; rewrite ?E; reflexivity. Qed.
+Lemma neg_val_other c p : ckind NM c <> KDoubleExp -> neg_val c p = zrow c.
+Proof. intros E. destruct p as [|(a, b) l]; cbn [neg_val]; [reflexivity|]. destruct (ckind NM c); try reflexivity. contradiction. Qed.
+Lemma cur_hist_delta r c p p' : ckind NM c = KDelta -> hist_is r (cur_hist c p) -> hist_is r (cur_hist c p').
+Proof. intros E H k Hk. rewrite (H k Hk). unfold cur_hist. now rewrite !cur_val_delta. Qed.
+Lemma neg_hist_other r c p p' : ckind NM c <> KDoubleExp -> hist_is r (neg_hist c p) -> hist_is r (neg_hist c p').
+Proof. intros E H k Hk. rewrite (H k Hk). unfold neg_hist. now rewrite !neg_val_other. Qed.
+
+Lemma peek_cur c s p : Inv c s p -> peek_row NM (cur NM s) = cur_val c p.
+Proof.
+  intros I. rewrite (peek_row_at _ _ (inv_wc _ _ _ I)). apply (inv_hc _ _ _ I 0).
+  destruct (inv_wc _ _ _ I) as ((Hn & _) & _). exact Hn.
+Qed.
+Lemma peek_neg c s p : Inv c s p -> peek_row NM (neg NM s) = neg_val c p.
+Proof.
+  intros I. rewrite (peek_row_at _ _ (inv_wn _ _ _ I)). apply (inv_hn _ _ _ I 0).
+  destruct (inv_wn _ _ _ I) as ((Hn & _) & _). exact Hn.
+Qed.
+
 (* a forward call with an input of the record's shape succeeds, returns the current determined by the
    inputs so far, and extends the history of every record by one step *)
 Theorem forward_ok c s p xs inj : Inv c s p -> entry_ok c (xs, inj) ->
@@ -284,10 +311,7 @@ Theorem forward_ok c s p xs inj : Inv c s p -> entry_ok c (xs, inj) ->
 Proof.
   intros I (Hx & Hi). cbn [fst snd] in *.
   assert (Hp' : Forall (entry_ok c) ((xs, inj) :: p)) by (constructor; [split; assumption|exact (inv_p _ _ _ I)]).
-  assert (Hpc : peek_row NM (cur NM s) = cur_val c p).
-  { rewrite (peek_row_at _ _ (inv_wc _ _ _ I)). apply (inv_hc _ _ _ I 0). destruct (inv_wc _ _ _ I) as ((Hn & _) & _). exact Hn. }
-  assert (Hpn : peek_row NM (neg NM s) = neg_val c p).
-  { rewrite (peek_row_at _ _ (inv_wn _ _ _ I)). apply (inv_hn _ _ _ I 0). destruct (inv_wn _ _ _ I) as ((Hn & _) & _). exact Hn. }
+  pose proof (peek_cur c s p I) as Hpc. pose proof (peek_neg c s p I) as Hpn.
   destruct (rpush_ok c _ (spk NM s) (map (boolify NM) xs) _ (inv_ws _ _ _ I) (inv_hs _ _ _ I))
     as (spk' & Hps & Hws' & HNs' & Hhs'); [rewrite map_length; exact Hx|].
   assert (Hhs'' : hist_is spk' (spike_hist c ((xs, inj) :: p))).
@@ -296,20 +320,13 @@ Proof.
   pose proof (cur_val_length c _ Hp') as Hlc. pose proof (neg_val_length c _ Hp') as Hln.
   destruct (ckind NM c) eqn:Ek.
   - (* delta *)
-    eexists. split.
-    + rewrite (rshape_of_wfr _ _ Hws'). f_equal. f_equal. f_equal.
-      apply (current_of_inv c (mkSyn NM spk' (cur NM s) (neg NM s)) ((xs, inj) :: p)).
-      constructor; cbn [spk cur neg]; try (rewrite HNs'); try apply I; auto.
-      * intros k Hk. rewrite (inv_hc _ _ _ I k Hk). unfold cur_hist. destruct k; cbn [skipn cur_val]; rewrite ?Ek; try reflexivity.
-        destruct (skipn k p) as [|(a, b) l] eqn:E; cbn [cur_val]; rewrite ?Ek; try reflexivity.
-        change (cur_val c (skipn k p) = zrow c). rewrite E. cbn [cur_val]. rewrite Ek. reflexivity.
-      * intros k Hk. rewrite (inv_hn _ _ _ I k Hk). unfold neg_hist. destruct k; cbn [skipn neg_val]; rewrite ?Ek; try reflexivity.
-        change (neg_val c (skipn k p) = zrow c). destruct (skipn k p) as [|(a, b) l]; cbn [neg_val]; rewrite ?Ek; reflexivity.
-    + constructor; cbn [spk cur neg]; try (rewrite HNs'); try apply I; auto.
-      * intros k Hk. rewrite (inv_hc _ _ _ I k Hk). unfold cur_hist. destruct k; cbn [skipn cur_val]; rewrite ?Ek; try reflexivity.
-        change (cur_val c (skipn k p) = zrow c). destruct (skipn k p) as [|(a, b) l]; cbn [cur_val]; rewrite ?Ek; reflexivity.
-      * intros k Hk. rewrite (inv_hn _ _ _ I k Hk). unfold neg_hist. destruct k; cbn [skipn neg_val]; rewrite ?Ek; try reflexivity.
-        change (neg_val c (skipn k p) = zrow c). destruct (skipn k p) as [|(a, b) l]; cbn [neg_val]; rewrite ?Ek; reflexivity.
+    assert (I' : Inv c (mkSyn NM spk' (cur NM s) (neg NM s)) ((xs, inj) :: p)).
+    { constructor; cbn [spk cur neg]; try (rewrite HNs'); try apply I; auto.
+      - apply (cur_hist_delta _ c p); [exact Ek|apply I].
+      - apply (neg_hist_other _ c p); [rewrite Ek; discriminate|apply I]. }
+    eexists. split; [|exact I'].
+    rewrite (rshape_of_wfr _ _ Hws'). f_equal. f_equal. f_equal.
+    rewrite (current_of_inv _ _ _ I'). unfold cur_out. rewrite Ek. reflexivity.
   - (* delta plus *)
     assert (Hlv : length (deltaplus_val NM c xs inj) = nel (cshape NM c)) by (cbn [cur_val] in Hlc; rewrite Ek in Hlc; exact Hlc).
     destruct (rpush_ok c _ (cur NM s) _ _ (inv_wc _ _ _ I) (inv_hc _ _ _ I) Hlv) as (cur' & Hpc' & Hwc' & HNc' & Hhc').
@@ -317,10 +334,10 @@ Proof.
     assert (I' : Inv c (mkSyn NM spk' cur' (neg NM s)) ((xs, inj) :: p)).
     { constructor; cbn [spk cur neg]; try (rewrite HNs'); try (rewrite HNc'); try apply I; auto.
       - eapply hist_is_ext; [|exact Hhc']. intros [|k]; unfold cur_hist; cbn [shift_h skipn cur_val]; rewrite ?Ek; reflexivity.
-      - intros k Hk. rewrite (inv_hn _ _ _ I k Hk). unfold neg_hist. destruct k; cbn [skipn neg_val]; rewrite ?Ek; try reflexivity.
-        change (neg_val c (skipn k p) = zrow c). destruct (skipn k p) as [|(a, b) l]; cbn [neg_val]; rewrite ?Ek; reflexivity. }
+      - apply (neg_hist_other _ c p); [rewrite Ek; discriminate|apply I]. }
     eexists. split; [|exact I'].
-    rewrite (rshape_of_wfr _ _ Hwc'). f_equal. f_equal. f_equal. apply (current_of_inv _ _ _ I').
+    rewrite (rshape_of_wfr _ _ Hwc'). f_equal. f_equal. f_equal.
+    rewrite (current_of_inv _ _ _ I'). unfold cur_out. rewrite Ek. reflexivity.
   - (* single exponential *)
     assert (Hlv : length (singleexp_val NM c (peek_row NM (cur NM s)) xs) = nel (cshape NM c))
       by (rewrite Hpc; cbn [cur_val] in Hlc; rewrite Ek in Hlc; exact Hlc).
@@ -329,10 +346,10 @@ Proof.
     assert (I' : Inv c (mkSyn NM spk' cur' (neg NM s)) ((xs, inj) :: p)).
     { constructor; cbn [spk cur neg]; try (rewrite HNs'); try (rewrite HNc'); try apply I; auto.
       - eapply hist_is_ext; [|exact Hhc']. intros [|k]; unfold cur_hist; cbn [shift_h skipn cur_val]; rewrite ?Ek, ?Hpc; reflexivity.
-      - intros k Hk. rewrite (inv_hn _ _ _ I k Hk). unfold neg_hist. destruct k; cbn [skipn neg_val]; rewrite ?Ek; try reflexivity.
-        change (neg_val c (skipn k p) = zrow c). destruct (skipn k p) as [|(a, b) l]; cbn [neg_val]; rewrite ?Ek; reflexivity. }
+      - apply (neg_hist_other _ c p); [rewrite Ek; discriminate|apply I]. }
     eexists. split; [|exact I'].
-    rewrite (rshape_of_wfr _ _ Hwc'). f_equal. f_equal. f_equal. apply (current_of_inv _ _ _ I').
+    rewrite (rshape_of_wfr _ _ Hwc'). f_equal. f_equal. f_equal.
+    rewrite (current_of_inv _ _ _ I'). unfold cur_out. rewrite Ek. reflexivity.
   - (* double exponential *)
     assert (Hlv : length (doubleexp_pos NM c (peek_row NM (cur NM s)) xs) = nel (cshape NM c))
       by (rewrite Hpc; cbn [cur_val] in Hlc; rewrite Ek in Hlc; exact Hlc).
@@ -346,7 +363,8 @@ Proof.
       - eapply hist_is_ext; [|exact Hhc']. intros [|k]; unfold cur_hist; cbn [shift_h skipn cur_val]; rewrite ?Ek, ?Hpc; reflexivity.
       - eapply hist_is_ext; [|exact Hhn']. intros [|k]; unfold neg_hist; cbn [shift_h skipn neg_val]; rewrite ?Ek, ?Hpn; reflexivity. }
     eexists. split; [|exact I'].
-    rewrite (rshape_of_wfr _ _ Hwc'). f_equal. f_equal. f_equal. apply (current_of_inv _ _ _ I').
+    rewrite (rshape_of_wfr _ _ Hwc'). f_equal. f_equal. f_equal.
+    rewrite (current_of_inv _ _ _ I'). unfold cur_out. rewrite Ek. reflexivity.
 Qed.
 
 (* an input of another shape raises before anything is written *)
@@ -357,29 +375,32 @@ Proof.
 Qed.
 
 (* ------------------------------------------------------------------ clear *)
+Lemma hist_nil_cur c k : cur_hist c [] k = zrow c.
+Proof. unfold cur_hist. destruct k; reflexivity. Qed.
+Lemma hist_nil_neg c k : neg_hist c [] k = zrow c.
+Proof. unfold neg_hist. destruct k; reflexivity. Qed.
+Lemma hist_nil_spk c k : spike_hist c [] k = zrow c.
+Proof. unfold spike_hist. destruct k; reflexivity. Qed.
+
 Theorem clear_inv c s p : Inv c s p -> Inv c (clear NM c s) [].
 Proof.
   intros I.
   destruct (rreset_ok _ _ (inv_ws _ _ _ I)) as (Hws & HNs & Hhs).
   destruct (rreset_ok _ _ (inv_wc _ _ _ I)) as (Hwc & HNc & Hhc).
   destruct (rreset_ok _ _ (inv_wn _ _ _ I)) as (Hwn & HNn & Hhn).
-  assert (Hz : forall k, cur_hist c p k = zrow c -> True) by auto.
+  assert (Zs : hist_is (rreset NM (spk NM s)) (spike_hist c [])).
+  { intros k Hk. rewrite Hhs by exact Hk. symmetry. apply hist_nil_spk. }
+  assert (Zc : hist_is (rreset NM (cur NM s)) (cur_hist c [])).
+  { intros k Hk. rewrite Hhc by exact Hk. symmetry. apply hist_nil_cur. }
+  assert (Zn : hist_is (rreset NM (neg NM s)) (neg_hist c [])).
+  { intros k Hk. rewrite Hhn by exact Hk. symmetry. apply hist_nil_neg. }
   unfold clear. destruct (ckind NM c) eqn:Ek; constructor; cbn [spk cur neg];
-    rewrite ?HNs, ?HNc, ?HNn; try apply I; auto;
-    try (intros k Hk; rewrite ?Hhs, ?Hhc, ?Hhn by exact Hk; unfold spike_hist, cur_hist, neg_hist; destruct k; reflexivity).
-  (* records a class does not reset: they are never written either, so they still hold the resting value *)
-  - intros k Hk. rewrite (inv_hc _ _ _ I k Hk). unfold cur_hist.
-    replace (skipn k []) with (@nil (list A * list (list A))) by (destruct k; reflexivity). cbn [cur_val].
-    destruct (skipn k p) as [|(a, b) l]; cbn [cur_val]; rewrite ?Ek; reflexivity.
-  - intros k Hk. rewrite (inv_hn _ _ _ I k Hk). unfold neg_hist.
-    replace (skipn k []) with (@nil (list A * list (list A))) by (destruct k; reflexivity). cbn [neg_val].
-    destruct (skipn k p) as [|(a, b) l]; cbn [neg_val]; rewrite ?Ek; reflexivity.
-  - intros k Hk. rewrite (inv_hn _ _ _ I k Hk). unfold neg_hist.
-    replace (skipn k []) with (@nil (list A * list (list A))) by (destruct k; reflexivity). cbn [neg_val].
-    destruct (skipn k p) as [|(a, b) l]; cbn [neg_val]; rewrite ?Ek; reflexivity.
-  - intros k Hk. rewrite (inv_hn _ _ _ I k Hk). unfold neg_hist.
-    replace (skipn k []) with (@nil (list A * list (list A))) by (destruct k; reflexivity). cbn [neg_val].
-    destruct (skipn k p) as [|(a, b) l]; cbn [neg_val]; rewrite ?Ek; reflexivity.
+    rewrite ?HNs, ?HNc, ?HNn; try apply I; auto.
+  (* records a class does not reset are never written either: they still hold the resting value *)
+  - apply (cur_hist_delta _ c p); [exact Ek|apply I].
+  - apply (neg_hist_other _ c p); [rewrite Ek; discriminate|apply I].
+  - apply (neg_hist_other _ c p); [rewrite Ek; discriminate|apply I].
+  - apply (neg_hist_other _ c p); [rewrite Ek; discriminate|apply I].
 Qed.
 
 (* ------------------------------------------------------------------ every operation, every run *)
@@ -391,7 +412,7 @@ Proof. unfold lift_b. destruct r as [(sh, v)|e]; intros H; [injection H as <- _;
 Theorem sstep_inv c s p o : Inv c s p -> op_ok o ->
   match sstep NM c s o with
   | SOk (s', _) => Inv c s' (spec_step c p o)
-  | SErr _ => spec_step c p o = p \/ (forall xsh xs inj, o <> OStep NM xsh xs inj) /\ o <> OClear NM
+  | SErr _ => True
   end.
 Proof.
   intros I Hok. destruct o as [xsh xs inj| | |ssh sel|ssh sel|ssh sel|ssh sel|]; cbn [sstep spec_step].
@@ -399,13 +420,13 @@ Proof.
     + apply shape_eqb_eq in Es. subst xsh. destruct Hok as (Hx & Hi).
       destruct (forward_ok c s p xs inj I (conj Hx Hi)) as (s' & Hf & I'). rewrite Hf. exact I'.
     + assert (Hne : xsh <> cshape NM c) by (intros ->; rewrite shape_eqb_refl in Es; discriminate).
-      rewrite (forward_bad_shape c s p xsh xs inj I Hne). left; reflexivity.
+      rewrite (forward_bad_shape c s p xsh xs inj I Hne). exact Logic.I.
   - exact I.
   - exact I.
-  - destruct (lift_f NM s _) as [(s', out)|e] eqn:E; [apply lift_f_state in E; subst; exact I|left; reflexivity].
-  - destruct (lift_b NM s _) as [(s', out)|e] eqn:E; [apply lift_b_state in E; subst; exact I|left; reflexivity].
-  - destruct (lift_f NM s _) as [(s', out)|e] eqn:E; [apply lift_f_state in E; subst; exact I|left; reflexivity].
-  - destruct (lift_f NM s _) as [(s', out)|e] eqn:E; [apply lift_f_state in E; subst; exact I|left; reflexivity].
+  - destruct (lift_f NM s _) as [(s', out)|e] eqn:E; [apply lift_f_state in E; subst; exact I|exact Logic.I].
+  - destruct (lift_b NM s _) as [(s', out)|e] eqn:E; [apply lift_b_state in E; subst; exact I|exact Logic.I].
+  - destruct (lift_f NM s _) as [(s', out)|e] eqn:E; [apply lift_f_state in E; subst; exact I|exact Logic.I].
+  - destruct (lift_f NM s _) as [(s', out)|e] eqn:E; [apply lift_f_state in E; subst; exact I|exact Logic.I].
   - apply (clear_inv c s p I).
 Qed.
 
@@ -436,6 +457,60 @@ Corollary run_init_inv c ops : Forall op_ok ops ->
   Inv c (fst (run NM c (init NM c) ops)) (fold_left (spec_step c) ops []).
 Proof. intros H. apply run_inv; [apply init_inv|exact H]. Qed.
 
+(* ------------------------------------------------------------------ in-place = out-of-place *)
+Definition with_inplace (c : cfg) (b : bool) : cfg :=
+  mkCfg NM (ckind NM c) (cshape NM c) (cdt NM c) (cdelay NM c) (cQ NM c) (ctau NM c) (ctr NM c)
+        (cmode NM c) (ctol NM c) (ccur_ob NM c) (cspk_ob NM c) b.
+
+Lemma rpush_inplace_irrel c b1 b2 sh (r : ring) sh' el : wfr sh r ->
+  rpush NM (with_inplace c b1) r sh' el = rpush NM (with_inplace c b2) r sh' el.
+Proof.
+  intros Hw. destruct (list_eq_dec Nat.eq_dec sh' sh) as [->|Hne].
+  - unfold rpush. cbn [with_inplace cinplace]. rewrite !(push_unfold sh r el _ Hw). reflexivity.
+  - rewrite !(rpush_bad_shape _ sh sh' r el Hw Hne). reflexivity.
+Qed.
+
+Lemma sstep_inplace_irrel c b1 b2 s p o : Inv (with_inplace c b1) s p ->
+  sstep NM (with_inplace c b1) s o = sstep NM (with_inplace c b2) s o.
+Proof.
+  intros I. destruct o as [xsh xs inj| | |ssh sel|ssh sel|ssh sel|ssh sel|]; cbn [sstep]; try reflexivity.
+  unfold forward.
+  rewrite (rpush_inplace_irrel c b1 b2 _ (spk NM s) xsh _ (inv_ws _ _ _ I)).
+  destruct (rpush NM (with_inplace c b2) (spk NM s) xsh (map (boolify NM) xs)) as [spk'|e]; [|reflexivity].
+  cbn [with_inplace ckind].
+  destruct (ckind NM c); try reflexivity.
+  - change (deltaplus_val NM (with_inplace c b1) xs inj) with (deltaplus_val NM (with_inplace c b2) xs inj).
+    rewrite (rpush_inplace_irrel c b1 b2 _ (cur NM s) xsh _ (inv_wc _ _ _ I)). reflexivity.
+  - change (singleexp_val NM (with_inplace c b1)) with (singleexp_val NM (with_inplace c b2)).
+    rewrite (rpush_inplace_irrel c b1 b2 _ (cur NM s) xsh _ (inv_wc _ _ _ I)). reflexivity.
+  - change (doubleexp_pos NM (with_inplace c b1)) with (doubleexp_pos NM (with_inplace c b2)).
+    change (doubleexp_neg NM (with_inplace c b1)) with (doubleexp_neg NM (with_inplace c b2)).
+    rewrite (rpush_inplace_irrel c b1 b2 _ (cur NM s) xsh _ (inv_wc _ _ _ I)).
+    rewrite (rpush_inplace_irrel c b1 b2 _ (neg NM s) xsh _ (inv_wn _ _ _ I)). reflexivity.
+Qed.
+
+(* in-place and out-of-place modes produce identical results: every output, every record, the pointer,
+   after every sequence of operations *)
+Theorem inplace_eq_outofplace c b1 b2 : forall ops s p, Inv (with_inplace c b1) s p -> Forall op_ok ops ->
+  run NM (with_inplace c b1) s ops = run NM (with_inplace c b2) s ops.
+Proof.
+  induction ops as [|o ops IH]; intros s p I Hok; cbn [run]; [reflexivity|].
+  inversion Hok as [|? ? Ho Hops]; subst.
+  rewrite <- (sstep_inplace_irrel c b1 b2 s p o I).
+  pose proof (sstep_inv _ s p o I Ho) as Hs.
+  destruct (sstep NM (with_inplace c b1) s o) as [(s', out)|e] eqn:E.
+  - rewrite (IH s' _ Hs Hops). reflexivity.
+  - rewrite (IH s p I Hops). reflexivity.
+Qed.
+
+Corollary inplace_eq_outofplace_init c ops : Forall op_ok ops ->
+  run NM (with_inplace c true) (init NM (with_inplace c true)) ops =
+  run NM (with_inplace c false) (init NM (with_inplace c false)) ops.
+Proof.
+  intros Hok. change (init NM (with_inplace c false)) with (init NM (with_inplace c true)).
+  apply (inplace_eq_outofplace c true false ops _ [] (init_inv _) Hok).
+Qed.
+
 (* ------------------------------------------------------------------ consequences stated without the invariant *)
 (* the stored spike record equals the input spikes: k steps before the write position sits the
    (boolean) input received k steps ago, the resting value before the start / the last clear *)
@@ -458,9 +533,5 @@ Proof.
   - apply (inv_hc _ _ _ I k). rewrite (inv_Nc _ _ _ I). exact Hk.
   - apply (inv_hn _ _ _ I k). rewrite (inv_Nn _ _ _ I). exact Hk.
 Qed.
-
-(* the record size never changes and is the one computed from (dt, delay, inclusive=True) *)
-Lemma sstep_N c s o s' out : sstep NM c s o = SOk (s', out) -> Inv c s (@nil _) \/ True -> True.
-Proof. auto. Qed.
 
 End Hist.
